@@ -22,6 +22,9 @@ from harness import probes
 PROP = "C19"
 TARGETS = ["IbicusModel.Props.C19", "IbicusModel.Lemmas.GenMetrics", "IbicusModel.Props.C19Gen"]  # the audit imports all three
 GEN = ["Metrics"]  # tier A: dispatch, spell expression, per-location formulas of metrics.py (translator/extract_metrics.py)
+# calendar tier A: day_of_year / month / year / season / inferred dates / yearly means as data (translator/extract_calendar.py)
+TARGETS += ["IbicusModel.Lemmas.GenCalendarFns"]
+GEN += ["CalendarFns"]
 
 SEASON_CODE = {"Winter": 0, "Spring": 1, "Summer": 2, "Autumn": 3}
 SHAPES = [(1, 1), (2, 3), (3, 1), (1, 3), (1, 2), (2, 1)]  # singleton grid dimensions on either axis included
